@@ -56,6 +56,8 @@ class Result:
             self.fired[k] = self.fired.get(k, 0) + v
         for k, v in world.probes.items():
             self.probes[k] = self.probes.get(k, 0) + v
+        if getattr(world, "debug_logging", False):
+            self.probes["debug_logging_run"] = self.probes.get("debug_logging_run", 0) + 1
 
     def add_fired(self, d):
         for k, v in d.items():
@@ -75,10 +77,13 @@ class Space:
     def __init__(self, check_id):
         self.check_id = check_id
         self.parts = []
+        self.limits = {}       # part -> real-time budget per run (default: runner's)
 
-    def add(self, name, n, fn, exhaustive=False):
+    def add(self, name, n, fn, exhaustive=False, wall_limit=None):
         if n > 0:
             self.parts.append((name, n, fn, exhaustive))
+            if wall_limit:
+                self.limits[name] = wall_limit
         return self
 
     @property
@@ -99,6 +104,8 @@ class Space:
         p = fn(j, rng)
         p.setdefault("property", self.check_id)
         p.setdefault("part", name)
+        if name in self.limits:
+            p.setdefault("wall_limit", self.limits[name])
         p.setdefault("seed", int.from_bytes(h[8:14], "big"))
         p["index"] = i
         return p
@@ -137,9 +144,53 @@ def _load_check(check_id):
     return _CHECK
 
 
+class RunWallClockExceeded(KeyboardInterrupt):
+    """Raised by SIGALRM inside a run that does not come back (e.g. an endless loop inside one callback).
+    Derived from KeyboardInterrupt so that asyncio's callback wrapper re-raises it instead of logging it."""
+
+
+_ALARM = {"fired": False}
+
+
+def _on_alarm(signum, frame):
+    _ALARM["fired"] = True
+    raise RunWallClockExceeded()
+
+
 def _safe_run(check, plan):
+    import signal
+    limit = float(plan.get("wall_limit", getattr(check, "RUN_WALL_LIMIT", 10.0)))
+    use_alarm = hasattr(signal, "setitimer")
+    _ALARM["fired"] = False
     try:
-        r = check.run(plan)
+        if use_alarm:
+            try:
+                old = signal.signal(signal.SIGALRM, _on_alarm)
+                signal.setitimer(signal.ITIMER_REAL, limit)
+            except ValueError:          # not in the main thread
+                use_alarm = False
+        try:
+            r = check.run(plan)
+        finally:
+            if use_alarm:
+                signal.setitimer(signal.ITIMER_REAL, 0)
+                signal.signal(signal.SIGALRM, old)
+        if _ALARM["fired"]:
+            raise RunWallClockExceeded()     # the exception was swallowed somewhere inside the run
+    except RunWallClockExceeded:
+        # step caps bound runs that keep yielding to the loop; this bounds code that never yields
+        r = Result()
+        r.ok = False
+        r.sig = "liveness: run did not finish within its wall-clock budget (library code hangs)"
+        r.detail = f"no return within {limit:.0f} s of real time"
+        r.key = ("hang", repr(sorted(plan.items(), key=lambda kv: kv[0]))[:200])
+        try:
+            import asyncio
+            asyncio.set_event_loop(None)
+            from asyncio import events
+            events._set_running_loop(None)
+        except Exception:
+            pass
     except Exception as e:   # harness failure, never a pass and never a violation
         r = Result()
         r.ok = False
@@ -423,7 +474,8 @@ def main(argv=None):
                     lo, agg = fu.result()
                     results[lo] = agg
                     nfail += len(agg["fail"])
-                    if nfail >= 300:
+                    nhang = sum(1 for f in agg["fail"] if f[1] and f[1].startswith("liveness: run did not finish"))
+                    if nfail >= 300 or nhang >= 3:
                         # plenty of evidence of a violation: do not burn the rest of the budget
                         for f2 in futs:
                             f2.cancel()
